@@ -33,9 +33,25 @@ func uvarintFromBuf(r *bufio.Reader) (uint64, error) {
 	if err != nil && err != io.EOF {
 		return 0, err
 	}
+	// at the end of input Peek gives less than asked for
+	if len(p) == 0 || len(p) < uvarintLen(p[0]) {
+		return 0, io.ErrUnexpectedEOF
+	}
 	x, n := uvarintFromBytes(p)
 	_, err = r.Discard(n)
 	return x, err
+}
+
+// uvarintLen tells the length of the encoded uvarint from its first byte.
+func uvarintLen(b0 byte) int {
+	switch {
+	case b0 <= 240:
+		return 1
+	case b0 <= 248:
+		return 2
+	default:
+		return int(b0) - 246
+	}
 }
 
 // bytesFromBuf reads exactly n bytes.
@@ -151,21 +167,23 @@ func valueFromBuf(r *bufio.Reader) (value, error) {
 
 	switch c := typecode(b[0]); c {
 	case typeINT:
-		p, _ := r.Peek(9)
-		x, i := varintFromBytes(p)
-		_, err = r.Discard(i)
-		return int(x), err
+		u, err := uvarintFromBuf(r)
+		return int(u64ToI64(u)), err
 
 	case typeFLOAT:
-		p, _ := r.Peek(8)
-		_, err = r.Discard(len(p))
-		return math.Float64frombits(stdbinary.BigEndian.Uint64(p)), err
+		var p [8]byte
+		_, err = io.ReadFull(r, p[:])
+		if err != nil {
+			return nil, io.ErrUnexpectedEOF
+		}
+		return math.Float64frombits(stdbinary.BigEndian.Uint64(p[:])), nil
 
 	case typeSTR:
-		p, _ := r.Peek(9)
-		k, i := uvarintFromBytes(p)
-		r.Discard(i)
-		p, err = bytesFromBuf(r, k)
+		k, err := uvarintFromBuf(r)
+		if err != nil {
+			return nil, err
+		}
+		p, err := bytesFromBuf(r, k)
 		return string(p), err
 
 	case typeBOOL:
